@@ -12,14 +12,15 @@ import (
 )
 
 type c15Stream struct {
-	Side    int  `json:"side"`
-	SID     int  `json:"sid"`
-	Thresh  int  `json:"thresh"`
-	Reenter int  `json:"reenter"` // callback body: 0 none, 1 queries, 2 queries + small write, 3 queries + raise/lower threshold
-	RelT    int  `json:"relt,omitempty"`
-	RelV    int  `json:"relv,omitempty"`
-	Unord   bool `json:"unord,omitempty"`
-	Closed  bool `json:"closed,omitempty"` // closed by the writer right after its last write
+	Side       int  `json:"side"`
+	SID        int  `json:"sid"`
+	Thresh     int  `json:"thresh"`
+	Reenter    int  `json:"reenter"` // callback body: 0 none, 1 queries, 2 queries + small write, 3 queries + raise/lower threshold
+	RelT       int  `json:"relt,omitempty"`
+	RelV       int  `json:"relv,omitempty"`
+	Unord      bool `json:"unord,omitempty"`
+	Closed     bool `json:"closed,omitempty"`     // closed by the writer right after its last write
+	PeerClosed bool `json:"peerclosed,omitempty"` // the reader closes its direction while data is outstanding
 }
 
 type c15Scn struct {
@@ -74,6 +75,30 @@ func genC15(rt *rapid.T) c15Scn {
 		st.Closed = true
 		x.Sc.Acts = append(x.Sc.Acts, vfAct{AtMs: last + rapid.SampledFrom([]int{0, 1, 40}).Draw(rt, "closegap"), Side: st.Side, Kind: "closestream", SID: st.SID})
 	}
+	// the reading side may close its direction of a stream as well, while the writer still has
+	// data outstanding on it
+	for i := range x.Streams {
+		st := &x.Streams[i]
+		if rapid.IntRange(0, 3).Draw(rt, "peerclose") != 0 {
+			continue
+		}
+		first, last := -1, -1
+		for _, a := range x.Sc.Acts {
+			if a.Kind == "write" && a.Side == st.Side && a.SID == st.SID {
+				if first < 0 || a.AtMs < first {
+					first = a.AtMs
+				}
+				if a.AtMs > last {
+					last = a.AtMs
+				}
+			}
+		}
+		if first < 0 {
+			continue
+		}
+		st.PeerClosed = true
+		x.Sc.Acts = append(x.Sc.Acts, vfAct{AtMs: last + rapid.SampledFrom([]int{11, 12, 25, 60, 300}).Draw(rt, "peerclosegap"), Side: 1 - st.Side, Kind: "closestream", SID: st.SID})
+	}
 	sort.SliceStable(x.Sc.Acts, func(i, j int) bool { return x.Sc.Acts[i].AtMs < x.Sc.Acts[j].AtMs })
 	in := rapid.SampledFrom([]int{0, 15, 35}).Draw(rt, "intensity")
 	if in > 0 {
@@ -110,6 +135,8 @@ func runC15(t *testing.T, x c15Scn, verbose bool) vfCase {
 	var handles map[skey]*Stream
 	handles = map[skey]*Stream{}
 	cbWrites := map[skey]int{}
+	detachedSeen := map[skey]bool{}
+	detachedAmt := map[skey]int{}
 	out := vfRunE1(t, &sc, vfE1Opts{verbose: verbose, done: func(s *vfSim) bool {
 		for i := 0; i < 2; i++ {
 			if s.as[i].BufferedAmount() != 0 {
@@ -274,6 +301,21 @@ func runC15(t *testing.T, x c15Scn, verbose bool) vfCase {
 							continue
 						}
 						amt := st.BufferedAmount()
+						// known finding (not repaired): once the peer has reset its direction of a stream,
+						// the local Stream object is unregistered; bytes of it that are acknowledged later
+						// are never handed back to it. Its own figure is then not judged (and reported at
+						// the end under its own signature); everything else still is.
+						s.as[side].lock.RLock()
+						detached := s.as[side].streams[k.sid] != st
+						s.as[side].lock.RUnlock()
+						if detached {
+							if !detachedSeen[k] {
+								detachedSeen[k] = true
+								detachedAmt[k] = int(lastAmt[k])
+							}
+							sum += acc[k] - ackedBytes[k] // what the association still holds for it
+							continue
+						}
 						sum += int(amt)
 						want := acc[k] - ackedBytes[k]
 						if blocked[side] == 0 && int64(amt) != int64(want) {
@@ -309,8 +351,13 @@ func runC15(t *testing.T, x c15Scn, verbose bool) vfCase {
 				return
 			}
 			for k, st := range handles {
-				if amt := st.BufferedAmount(); amt != 0 {
+				if amt := st.BufferedAmount(); amt != 0 && !detachedSeen[k] {
 					c.fail("buffered-amount-not-zero", "everything is acknowledged or skipped but side %d stream %d reports %d buffered bytes", k.side, k.sid, amt)
+				}
+			}
+			for k, st := range handles {
+				if amt := st.BufferedAmount(); amt != 0 && detachedSeen[k] && c.Verdict == "" {
+					c.fail("buffered-amount-stale-after-inbound-reset", "side %d stream %d was reset by the peer while %d of its bytes were still unacknowledged; they were acknowledged later but BufferedAmount() still reports %d", k.side, k.sid, detachedAmt[k], amt)
 				}
 			}
 			// a write that fails (association no longer established) must leave the amount unchanged
@@ -329,6 +376,9 @@ func runC15(t *testing.T, x c15Scn, verbose bool) vfCase {
 			}
 			s.mu.Lock()
 			for k := range handles {
+				if detachedSeen[k] {
+					continue
+				}
 				st := cfg[k]
 				// with re-entrant writes or threshold changes inside the callback the amount can cross
 				// the threshold twice within one quiescent step; exact counting is done for plain bodies
@@ -363,6 +413,12 @@ func runC15(t *testing.T, x c15Scn, verbose bool) vfCase {
 	for _, st := range x.Streams {
 		if st.Closed {
 			c.class("stream-closed-with-data-outstanding")
+			break
+		}
+	}
+	for _, st := range x.Streams {
+		if st.PeerClosed {
+			c.class("peer-closed-its-direction")
 			break
 		}
 	}
